@@ -6,6 +6,8 @@
 import AnthemModel.Proofs.OutlineDefs
 import AnthemModel.Proofs.ExternalSemGen
 namespace Anthem.Outline
+
+attribute [local irreducible] Problem.renameConflictingSymbols
 open Asp
 
 theorem sat_agree_base (base : List Pred) (J : Interp) (P' : PredI)
